@@ -24,8 +24,10 @@ type Hist struct {
 	Abandoned    string
 	KeepTrailing bool
 	NPersist     int
-	// OnPersist is called with the state returned by every forced persist.
-	OnPersist func(st *db19.DbState)
+	// OnPersist is called with the state returned by every forced persist,
+	// PrePersist just before it.
+	OnPersist  func(st *db19.DbState)
+	PrePersist func()
 	// SyncIndexBuild: force a persist before a request that builds an index on a populated
 	// table. The persist drains the asynchronous merger, which side-steps the known
 	// index-build race (C04-index-added-to-populated-table-loses-later-commits).
@@ -127,7 +129,7 @@ func (h *Hist) DoAdmin(q *Req) (accepted bool, modelErr error, realErr any) {
 	modelErr = trial.apply(q)
 	realErr, stack := h.Real.Admin(text)
 	if _, ok := realErr.(runtime.Error); ok {
-		h.note("admin_go_runtime_error/"+q.Kind, text+" => "+fmt.Sprint(realErr)+"\n"+Trunc(stack, 1500))
+		h.note("admin_go_runtime_error/"+q.Kind, text+" => "+fmt.Sprint(realErr)+" at "+CompactStack(stack))
 	}
 	switch {
 	case realErr == nil && modelErr == nil:
@@ -165,7 +167,7 @@ func (h *Hist) DoTxn(ops []Op, end string) TxnResult {
 	}
 	res := h.Real.RunTxn(h.M, ops, end, h.KeepTrailing)
 	if res.GoPanic != "" {
-		h.note("txn_go_runtime_error/"+errClass(res.Err), res.Err+"\n"+Trunc(res.GoPanic, 2500))
+		h.note("txn_go_runtime_error/"+errClass(res.Err), txtOf(ops)+" => "+res.Err+" at "+CompactStack(res.GoPanic))
 	}
 	desc := make([]string, len(ops))
 	for i := range ops {
@@ -204,11 +206,40 @@ func (h *Hist) Persist() *db19.DbState {
 	h.NPersist++
 	h.Steps = append(h.Steps, Step{Kind: "persist"})
 	h.logf("persist")
+	if h.PrePersist != nil {
+		h.PrePersist()
+	}
 	st := h.Real.DB.Persist()
 	if h.OnPersist != nil {
 		h.OnPersist(st)
 	}
 	return st
+}
+
+func txtOf(ops []Op) string {
+	desc := make([]string, len(ops))
+	for i := range ops {
+		desc[i] = ops[i].String()
+	}
+	return "txn{" + strings.Join(desc, "; ") + "}"
+}
+
+// CompactStack keeps the first repository frames of a stack trace ("file.go:line").
+func CompactStack(stack string) string {
+	var out []string
+	for _, line := range strings.Split(stack, "\n") {
+		line = strings.TrimSpace(line)
+		if strings.HasPrefix(line, "/repo/") && !strings.Contains(line, "zzverif") {
+			if i := strings.Index(line, " "); i > 0 {
+				line = line[:i]
+			}
+			out = append(out, strings.TrimPrefix(line, "/repo/"))
+			if len(out) == 4 {
+				break
+			}
+		}
+	}
+	return strings.Join(out, " < ")
 }
 
 func Trunc(s string, n int) string {
